@@ -41,9 +41,10 @@ def observe_impl(ops, queries, keyform=list):
             g = ["get/getitem disagree", g, gi]
         gets.append(g)
         lm.append(t.longest_matching_prefix_value(qq))
-    items = [[list(k), v] for k, v in t.items()]
-    it2 = [[list(k), v] for k, v in t]
-    prefixes = [list(k) for k in t.prefixes()]
+    # keep the yielded objects alive until the traversal is over (a consumer may store them)
+    items = [[list(k), v] for k, v in list(t.items())]
+    it2 = [[list(k), v] for k, v in list(t)]
+    prefixes = [list(k) for k in list(t.prefixes())]
     values = list(t.values())
     return dict(len=len(t), items=items, iter=it2, gets=gets, lmpv=lm, prefixes=prefixes, values=values)
 
